@@ -23,7 +23,7 @@ CONFIG = {
     "C16": dict(gen=["Char"], drivers=["Char", "Meso"]),
     "C18": dict(gen=["Char"], drivers=["Kernel", "Char"]),
     "C19": dict(gen=["Char", "Models"], drivers=["Char", "Enthalpy"]),
-    "C17": dict(gen=["Char"], drivers=["Char"]),
+    "C17": dict(gen=["Char"], drivers=["Char", "HKPot"]),
     "C02": dict(gen=["Units"], drivers=["IsoState"]),
     "C03": dict(gen=["Units"], drivers=["Access"]),
     "C04": dict(gen=[], drivers=[]),
